@@ -9,9 +9,13 @@ leg A  model vs backend, representation level: factories' level lists / ctypes f
        `to_scipy` bookkeeping; the constituent arrays the backend returns for asarray / add / reshape /
        asformat decoded by the Lean `toDense`; the `_hold_ref` / `free_memref` / finalisation log of
        ownership programs against the ownership model's trace.
+       Which `_hold_ref` edges the model has is read off the source on every run (tools/tables.d/C20.py -> Generated/MlirHold.lean).
 leg C  the property: round trips return the original values; add / reshape / asformat equal NumPy for
        every pair of storage formats and dtypes outside the backend tests' xfail set; results are
-       re-read after every order of `del` + `gc.collect()` (with freed blocks scribbled over); inputs'
+       re-read after every order of `del` + `gc.collect()` (with freed blocks scribbled over); the lifetime sweep
+       (`lifetime_programs`): arrays built from NumPy / SciPy input, from_constituent_arrays, copy(), asarray(copy=…) in every
+       format, every reference to the sources and the backend arrays deleted in every order, "released while a view is alive"
+       decided by weak references to the owner of the allocation each surviving array points into; inputs'
        bytes unchanged; result pointers disjoint from inputs; a worker killed by the backend is a
        failing input (exit status reported).
 PARTIAL: the arithmetic is MLIR-compiled code no model executes; use-after-free is undefined behaviour
@@ -42,6 +46,11 @@ TRUSTED = [
     "tie T2: hand models SparseV.Model.Levels (level walk / toDense, to_numpy, scipy field mapping, _determine_format, factories, "
     "ctypes field names) and SparseV.Model.Ownership (_hold_ref edges, owns_memory storages, finalisation) compared with the running "
     "backend by this run (formats, constituent arrays, hold/free/finalisation logs)",
+    "tie T1 (keep-alive edges): tools/tables.d/C20.py reads with Python's `ast` which `_hold_ref` / `free_memref` loop of the nested "
+    "Storage class runs under which `owns_memory` condition and pins the texts of `_hold_ref`, the conversion functions and `Array.copy`; "
+    "its reading of those statements (and of the base walk before `_hold_ref`) as the five flags of SparseV.Own.Cfg is trusted (and compared with the `_hold_ref` log each run)",
+    "weak references decide 'released while a view is alive': CPython clears a weak reference exactly when the object is deallocated, "
+    "a NumPy array that owns its data frees it in its deallocator, an owning Storage frees its fields in `__del__`",
     "the MLIR sparse_tensor dialect's storage semantics (pos/crd/values per level) is what `toDense` formalises; it is validated "
     "against the backend's output, not derived from MLIR's source",
     "MLIR-compiled kernels (add, reshape, convert) are executed, not modelled: NumPy is the reference for their values",
@@ -628,6 +637,116 @@ def ownership_programs(ctx, rng):
     return progs
 
 
+def lifetime_programs(ctx, rng):
+    """arrays built from EXTERNAL buffers (NumPy input, SciPy input, from_constituent_arrays, copy(), asarray(copy=…)) in
+    every format, what the conversions hand back (get_constituent_arrays / to_numpy / to_scipy), and the units to delete in
+    every order: EVERY reference the program holds to the sources and to the backend arrays.  The outputs are held to the
+    end.  (label, program, units); a unit is a name or a list of names deleted in one step."""
+    progs = []
+    quick = ctx.quick
+    seed = ctx.seed
+    fdt = ["float64", "int32", "complex128", "int16", "complex64", "int64", "float16", "float32"]
+
+    def dt(i):
+        return fdt[(i + seed) % len(fdt)]
+
+    # ---- must-pass (every run, every seed): the witnesses of the repaired defect d206752 — for the element types the MLIR
+    # runtime re-views, to_numpy of a TEMPORARY result (the owning storage has no other holder once the call returns) and
+    # to_numpy(asarray(a)) followed by `del a, x`
+    for mdt in ("complex64", "complex128", "float16"):
+        a = (np.arange(12).reshape(3, 4) + 1).astype(mdt)
+        progs.append((f"life:must-pass:to_numpy-of-temporary:{mdt}",
+                      [["np", "a", np_spec(a)], ["asarray", "x", "a", None], ["op", "r", "add", ["x", "x"]], ["to_numpy", "t", "r"]],
+                      ["r", "a", "x"]))
+        for cp in (None, True):
+            progs.append((f"life:must-pass:to_numpy-del-a-x:{mdt}:copy={cp}",
+                          [["np", "a", np_spec(a)], ["asarray", "x", "a", cp], ["to_numpy", "t", "x"]], ["a", "x"]))
+    # ---- NumPy input: copy=None / False / True, ranks 1-4
+    shapes = [(3, 4), (5,), (2, 3, 2)] if quick else [(3, 4), (5,), (2, 3, 2), (2, 2, 2, 3), (1, 1)]
+    for i, cp in enumerate((None, False, True)):
+        for j, shape in enumerate(shapes):
+            if quick and (i + j + seed) % 3 and not (cp is True and j == 0):
+                continue
+            a = rand_dense(rng, shape, dt(i + j), 1.0)
+            # one program per kind of output: an output that keeps the storage alive must not mask another that does not
+            for what, out in (("views", ["views", ["v"], "x"]), ("to_numpy", ["to_numpy", "t", "x"])):
+                progs.append((f"life:numpy:copy={cp}:{len(shape)}d:{what}",
+                              [["np", "a", np_spec(a)], ["asarray", "x", "a", cp], out], ["a", "x"]))
+    # ---- SciPy input: CSR / CSC / COO, copy=None / True; all references to the matrix AND to its arrays dropped
+    for i, kind in enumerate(("csr", "csc", "coo")):
+        for j, cp in enumerate((None, True)):
+            sdt = dt(2 * i + j)
+            if sdt == "float16":   # not a scipy.sparse dtype
+                sdt = "float32"
+            m = rand_dense(rng, (4, 3), sdt, 0.5)
+            m[0, 0] = 3
+            spec = {"via": "scipy", "kind": kind, "shape": [4, 3], "dtype": sdt, "idx_dtype": ["int32", "int64"][(i + j + seed) % 2],
+                    "vals": enc_vals(m)}
+            nv = 4 if kind == "coo" else 3
+            vs = [f"v{k}" for k in range(nv)]
+            for what, out in (("views", ["views", vs, "x"]), ("to_scipy", ["to_scipy", "T", "x"])):
+                progs.append((f"life:scipy:{kind}:copy={cp}:{what}",
+                              [["scipy", "S", spec], ["asarray", "x", "S", cp], out], ["S", "x"]))
+                if cp is None and (not quick or i == seed % 3):
+                    # the program also holds two of the matrix's arrays under names of its own
+                    progs.append((f"life:scipy:{kind}:parts-held:{what}",
+                                  [["scipy", "S", spec, ["p", None, "d"]], ["asarray", "x", "S", None], out], ["S", "p", "d", "x"]))
+    # ---- from_constituent_arrays: every format family
+    fams = [("dense", "dense", 2, None), ("csr", "csf", 2, None), ("csc", "csf", 2, [1, 0]), ("coo1", "coo", 1, None),
+            ("coo2", "coo", 2, None), ("coo3", "coo", 3, None), ("csf3", "csf", 3, None)]
+    if not quick:
+        fams += [("dense3", "dense", 3, None), ("csf4", "csf", 4, None), ("coo4", "coo", 4, None), ("csf1", "csf", 1, None)]
+    built = {}
+    for i, (label, fac, nd, order) in enumerate(fams):
+        vdt = dt(i)
+        if vdt == "float16" and label in ("csr", "csc", "coo2"):   # handed to scipy.sparse, which has no float16
+            vdt = "float32"
+        w = [(64, 64), (32, 32), (64, 32), (16, 16)][(i + seed) % (3 if label in ("csr", "csc", "coo2") else 4)]
+        a = rand_dense(rng, {1: (6,), 2: (4, 3), 3: (2, 3, 2), 4: (2, 2, 2, 2)}[nd], vdt, 0.6)
+        a[(0,) * nd] = 2
+        kinds = FACTORY_KINDS[fac](nd)
+        arrs, akinds, vals = encode_levels(kinds, order or list(range(nd)), a)
+        names = [f"c{k}" for k in range(len(arrs))]
+        stm = [["np", n, {"via": "numpy", "shape": [len(x)], "dtype": f"int{w[0] if ak == 'pos' else w[1]}", "vals": x}]
+               for n, x, ak in zip(names, arrs, akinds)]
+        stm.append(["np", "cv", {"via": "numpy", "shape": [len(vals)], "dtype": vdt, "vals": enc_vals(vals)}])
+        fmt = {"factory": fac, "ndim": nd, "pos": w[0], "crd": w[1], "dtype": vdt}
+        if order:
+            fmt["order"] = order
+        stm.append(["from_arrays", "X", fmt, names + ["cv"], list(a.shape)])
+        built[label] = (stm, names + ["cv"])
+        outs = [("views", ["views", [f"v{k}" for k in range(len(names) + 1)], "X"])]
+        if fac == "dense":
+            outs.append(("to_numpy", ["to_numpy", "t", "X"]))
+        if label in ("csr", "csc", "coo2"):
+            outs.append(("to_scipy", ["to_scipy", "T", "X"]))
+        srcs = names + ["cv"]
+        limit = 3 if quick else 4
+        if len(srcs) > limit:   # group the index arrays so that every order of the groups is run
+            per = -(-len(names) // (limit - 1))
+            units = [names[k:k + per] for k in range(0, len(names), per)] + ["cv"]
+        else:
+            units = list(srcs)
+        for what, out in outs:
+            progs.append((f"life:arrays:{label}:{what}", stm + [out], units + ["X"]))
+    # ---- copy(): of an input-backed array (the copy is the only owner of its buffers) and of an owning result
+    stm, srcs = built["csr"]
+    for what, out in (("views", ["views", ["v0", "v1", "v2"], "C"]), ("to_scipy", ["to_scipy", "T", "C"])):
+        progs.append((f"life:copy:of-input-backed:{what}", stm + [["copy", "C", "X"], out], [srcs, "X", "C"]))
+    a = rand_dense(rng, (3, 4), ["float64", "complex128", "float32"][seed % 3], 1.0)
+    for what, out in (("views", ["views", ["v"], "c"]), ("to_numpy", ["to_numpy", "t", "c"]), ("to_numpy-of-result", ["to_numpy", "t", "r"])):
+        progs.append((f"life:copy:of-result:{what}",
+                      [["np", "a", np_spec(a)], ["asarray", "x", "a", None], ["op", "r", "add", ["x", "x"]], ["copy", "c", "r"], out],
+                      ["a", "x", "r", "c"]))
+    # ---- asarray(<backend array>, copy=True / False)
+    a = rand_dense(rng, (2, 5), dt(1), 1.0)
+    for what, out in (("views-of-copy", ["views", ["v"], "y"]), ("to_numpy-of-same", ["to_numpy", "t", "z"]), ("views-of-same", ["views", ["v"], "z"])):
+        progs.append((f"life:asarray-of-array:{what}",
+                      [["np", "a", np_spec(a)], ["asarray", "x", "a", None], ["asarray", "y", "x", True], ["asarray", "z", "x", False], out],
+                      ["a", "x", "y", "z"]))
+    return progs
+
+
 def model_commands(program, infos, delete):
     """translate a program (+ the worker's per-statement info) into ownership-model commands.
     returns (commands grouped per statement, role -> model id, name -> model id)"""
@@ -643,18 +762,98 @@ def model_commands(program, infos, delete):
         nid += 1
         return role[r]
 
+    scipy_parts = {}
+    cast = set()
+
+    def view_cmds(cmds, src, k, vrole, raws):
+        """the k-th array of get_constituent_arrays(): one object holding the storage — or, for an element type the MLIR runtime
+        re-views (the worker saw `view.base` being an ndarray), the raw array with nothing attached and its re-view"""
+        if vrole in cast:
+            cmds.append(["rawField", name[src], k]); r = new("raw:" + vrole)
+            raws.append(r)
+            cmds.append(["castView", r, name[src]])
+        else:
+            cmds.append(["view", name[src], k])
+        return new(vrole)
+
+    def copy_cmds(cmds, dst, src, tok):
+        """`Array.copy()`: views of the source, a copy of each, a non-owning storage over the copies (their only owner)"""
+        n = nfields[src]
+        vs, cs = [], []
+        for k in range(n):
+            vs.append(view_cmds(cmds, src, k, f"view:copy-{dst}:{k}", vs))
+        for k in range(n):
+            cmds.append(["newArray", tok]); tok += 1
+            cs.append(new(f"np:{dst}:{k}"))
+        cmds.append(["mkStorage", cs]); s = new(f"storage:{dst}")
+        cmds.append(["mkArray", s]); name[dst] = new(f"array:{dst}")
+        cmds.extend([["drop", i] for i in vs + cs + [s]] + [["collect"]])
+        nfields[dst] = n
+        return tok
+
     tok = 0
     for st, info in zip(program, infos):
         cmds = []
         kind = st[0]
+        cast = set(info.get("cast", []))
         if kind == "np":
             cmds.append(["newArray", tok]); tok += 1
             name[st[1]] = new(f"np:{st[1]}")
+        elif kind == "scipy":
+            # a SciPy matrix over three arrays that own their buffers; the program keeps the matrix (and the arrays it names)
+            ids = []
+            for k in range(3):
+                cmds.append(["newArray", tok]); tok += 1
+                ids.append(new(f"np:{st[1]}:{k}"))
+            cmds.append(["mkScipy", ids]); name[st[1]] = new(f"scipy:{st[1]}")
+            given = st[3] if len(st) > 3 else []
+            for k, i in enumerate(ids):
+                if k < len(given) and given[k] is not None:
+                    name[given[k]] = i
+                else:
+                    cmds.append(["drop", i])
+            cmds.append(["collect"])
+            scipy_parts[st[1]] = (ids, info.get("format"))
+        elif kind == "asarray" and st[2] in nfields:
+            # asarray(<backend array>, copy): the array itself, or `copy()`
+            if info.get("alias_of"):
+                cmds.append(["alias", name[info["alias_of"]]])
+                name[st[1]] = name[info["alias_of"]]
+                role[f"array:{st[1]}"] = name[st[1]]
+                nfields[st[1]] = nfields[info["alias_of"]]
+            else:
+                tok = copy_cmds(cmds, st[1], st[2], tok)
+        elif kind == "asarray" and st[2] in scipy_parts:
+            ids, fmt = scipy_parts[st[2]]
+            cp = bool(st[3]) if len(st) > 3 else False
+            temps, srcs = [], []
+            if fmt == "coo":   # `pos = np.array([0, nnz])`: an array of the library's own
+                cmds.append(["newArray", tok]); tok += 1
+                temps.append(new(f"np:{st[1]}:pos"))
+                srcs.append(temps[-1])
+            for k, i in enumerate(ids):
+                if cp:
+                    cmds.append(["newArray", tok]); tok += 1
+                    temps.append(new(f"np:{st[1]}:{k + 1 if fmt == 'coo' else k}"))
+                    srcs.append(temps[-1])
+                else:
+                    srcs.append(i)
+            cmds.append(["mkStorage", srcs]); s = new(f"storage:{st[1]}")
+            cmds.append(["mkArray", s]); name[st[1]] = new(f"array:{st[1]}")
+            cmds += [["drop", i] for i in temps] + [["drop", s], ["collect"]]
+            nfields[st[1]] = len(srcs)
         elif kind == "asarray":
-            cmds.append(["npView", name[st[2]]]); f = new(f"flat:{st[1]}")
+            cp = bool(st[3]) if len(st) > 3 else False
+            temps = []
+            base = name[st[2]]
+            if cp:   # `arr.copy(order="C")`: the backend array is the only owner of the copy
+                cmds.append(["newArray", tok]); tok += 1
+                base = new(f"np:{st[1]}:copy")
+                temps.append(base)
+            cmds.append(["npView", base]); f = new(f"flat:{st[1]}")
             cmds.append(["mkStorage", [f]]); s = new(f"storage:{st[1]}")
             cmds.append(["mkArray", s]); name[st[1]] = new(f"array:{st[1]}")
-            cmds += [["drop", f], ["drop", s], ["collect"]]
+            cmds += [["drop", i] for i in temps] + [["drop", f], ["drop", s], ["collect"]]
             nfields[st[1]] = 1
         elif kind == "from_arrays":
             cmds.append(["mkStorage", [name[n] for n in st[3]]]); s = new(f"storage:{st[1]}")
@@ -693,9 +892,10 @@ def model_commands(program, infos, delete):
                 nfields[st[1]] = n
         elif kind == "views":
             src = st[2]
-            ids = []
+            ids, raws = [], []
             for k in range(nfields[src]):
-                cmds.append(["view", name[src], k]); ids.append(new(f"view:{src}:{k}"))
+                ids.append(view_cmds(cmds, src, k, f"view:{src}:{k}", raws))
+            cmds += [["drop", i] for i in raws]
             for n, i in zip(st[1], ids):
                 if n is None:
                     cmds.append(["drop", i])
@@ -703,25 +903,34 @@ def model_commands(program, infos, delete):
                     name[n] = i
             cmds.append(["collect"])
         elif kind == "to_numpy":
-            cmds.append(["view", name[st[2]], 0]); v = new(f"view:{st[1]}:data")
+            raws = []
+            v = view_cmds(cmds, st[2], 0, f"view:{st[1]}:data", raws)
             cmds.append(["npView", v]); name[st[1]] = new(f"np:{st[1]}")
-            cmds += [["drop", v], ["collect"]]
+            cmds += [["drop", i] for i in raws] + [["drop", v], ["collect"]]
         elif kind == "copy":
+            tok = copy_cmds(cmds, st[1], st[2], tok)
+        elif kind == "to_scipy":
+            # the arrays of get_constituent_arrays() handed to the SciPy constructor: each attribute of the matrix is one of
+            # them, a NumPy view of one of them, or a copy SciPy made (what the worker observed)
             src = st[2]
-            n = nfields[src]
-            vs, cs = [], []
-            for k in range(n):
-                cmds.append(["view", name[src], k]); vs.append(new(f"view:{st[1]}:{k}"))
-            for k in range(n):
-                cmds.append(["newArray", tok]); tok += 1
-                cs.append(new(f"np:{st[1]}:{k}"))
-            cmds.append(["mkStorage", cs]); s = new(f"storage:{st[1]}")
-            cmds.append(["mkArray", s]); name[st[1]] = new(f"array:{st[1]}")
-            cmds += [["drop", i] for i in vs + cs + [s]] + [["collect"]]
-            nfields[st[1]] = n
+            vs, made = [], []
+            for k in range(nfields[src]):
+                vs.append(view_cmds(cmds, src, k, f"view:{st[1]}:{k}", made))
+            comps = []
+            for comp in info.get("components", []):
+                an, how = comp[0], comp[1]
+                if how == "same":
+                    comps.append(vs[comp[2]])
+                elif how == "view":
+                    cmds.append(["npView", vs[comp[2]]]); made.append(new(f"np:{st[1]}:{an}")); comps.append(made[-1])
+                else:
+                    cmds.append(["newArray", tok]); tok += 1
+                    made.append(new(f"np:{st[1]}:{an}")); comps.append(made[-1])
+            cmds.append(["mkScipy", comps]); name[st[1]] = new(f"scipy:{st[1]}")
+            cmds += [["drop", i] for i in vs + made] + [["collect"]]
         groups.append(cmds)
     for n in delete:
-        groups.append([["drop", name[n]], ["collect"]])
+        groups.append([["drop", name[x]] for x in (n if isinstance(n, list) else [n])] + [["collect"]])
     return groups, role, name, mismatches
 
 
@@ -744,7 +953,16 @@ def shape_of(program, name):
     return []
 
 
-def check_ownership(ctx, label, program, delete, res, case):
+def ownership_model_reqs(program, delete, res):
+    """the two driver requests of one ownership run (batched by run(): one driver process for all runs)"""
+    if "crash" in res or "exc" in res:
+        return None
+    groups, _role, _name, _mm = model_commands(program, [t["info"] for t in res["trace"]], delete)
+    flat = [c for g in groups for c in g]
+    return [["c20_own_run", "code", flat], ["c20_excluded_history", [c for c in flat if c[0] != "collect"]]]
+
+
+def check_ownership(ctx, label, program, delete, res, case, model=None):
     """leg C on the worker's observations, leg A against the model's trace"""
     if "crash" in res:
         ctx.fail("C", "ownership:crash", case, f"the backend killed the worker (exit status {res['crash']}): {res.get('stderr', '')[-200:]}",
@@ -756,14 +974,49 @@ def check_ownership(ctx, label, program, delete, res, case):
     aliased_ops = [t["stmt"][1] for t in res["trace"] if t["info"].get("aliased")]
     rank1 = [st[1] for st in program if st[0] == "op" and st[2] == "reshape" and len(st[4]["shape"]) == 1
              and len(shape_of(program, st[3][0])) == 1]
-    case = dict(case, aliased_results=aliased_ops, rank1_reshapes=rank1)
+    cast_views = sorted({r for t in res["trace"] for r in t["info"].get("cast", [])})
+    case = dict(case, aliased_results=aliased_ops, rank1_reshapes=rank1, cast_views=cast_views)
+    # ---- the model's run of the same history (the code's keep-alive edges as read off the source)
+    infos = [t["info"] for t in res["trace"]]
+    groups, role, name, mismatches = model_commands(program, infos, delete)
+    flat = [c for g in groups for c in g]
+    if model is None:
+        model = ctx.driver.run(ownership_model_reqs(program, delete, res))
+    out = model[0]
+    tr = out["ok"]["trace"] if "ok" in out and "stuck" not in out["ok"] else None
+    inv = {}
+    for r, i in role.items():
+        inv.setdefault(i, r)
+
+    def predicted(step):
+        """names through which, by the model, the program reads a released buffer after deletion step `step`"""
+        if tr is None:
+            return set()
+        pos = sum(len(g) for g in groups[:len(res["trace"]) + step + 1]) - 1
+        objs = {o for o, _b in tr[pos]["dangling"]}
+        return {n for n, i in name.items() if i in objs or role.get(f"storage:{n}") in objs}
+
     for p in res["problems"]:
         ctx.fail("C", "ownership:aliasing", case, p, finding=findings.classify(PID, "ownership:aliasing", case, p))
-    for d in res["dels"]:
+    for u in res.get("untracked", []):
+        ctx.fail("A", "ownership:untracked-allocation", case, u)
+    seen_fwa = set()
+    for step, d in enumerate(res["dels"]):
+        pred = predicted(step)
+        for f in d.get("freed_while_alive", []):
+            key = (f["name"], f["part"])
+            if key in seen_fwa:
+                continue
+            seen_fwa.add(key)
+            what = f"`{f['name']}`" + (f" ({f['part']})" if f["part"] else "")
+            msg = (f"after deleting {d['deleted']!r} (deletion order {delete}; still held: {d.get('survivors')}) {what} is alive and points "
+                   f"into the allocation of {f['allocation']}, which has been released (its owner's weak reference is dead): use after free")
+            c2 = dict(case, freed_while_alive=f, deleted_so_far=delete[:step + 1], model_predicts=f["name"] in pred)
+            ctx.fail("C", "ownership:freed-while-alive", c2, msg, finding=findings.classify(PID, "ownership:freed-while-alive", c2, msg))
         bad = {n: v for n, v in d["survivors_ok"].items() if v is not True}
         if bad:
             msg = f"after deleting {d['deleted']!r} (order {delete}) these objects no longer read their original contents: {bad}"
-            c2 = dict(case, bad_survivors=sorted(bad))
+            c2 = dict(case, bad_survivors=sorted(bad), model_predicts=set(bad) <= pred)
             ctx.fail("C", "ownership:survivors", c2, msg, finding=findings.classify(PID, "ownership:survivors", c2, msg))
         badin = [n for n, v in d["inputs_ok"].items() if not v]
         if badin:
@@ -772,22 +1025,16 @@ def check_ownership(ctx, label, program, delete, res, case):
         if any(ev[0] == "free" and ev[1] == "unknown" for ev in d["events"]):
             ctx.fail("C", "ownership:foreign-free", case, f"free_memref called on an allocation no live result owns: {d['events']}")
     # ---- leg A: the model's trace
-    infos = [t["info"] for t in res["trace"]]
-    groups, role, name, mismatches = model_commands(program, infos, delete)
     for mm in mismatches:
         ctx.fail("A", "ownership:asformat-noop", case, mm)
-    flat = [c for g in groups for c in g]
-    out = ctx.driver.run([["c20_own_run", True, True, flat]])[0]
-    if "ok" not in out or "stuck" in out["ok"]:
+    if tr is None:
         ctx.fail("A", "ownership:model-stuck", case, f"model cannot run the program: {json.dumps(out)[:300]}")
         return
-    tr = out["ok"]["trace"]
-    excl = ctx.driver.run([["c20_excluded_history", [c for c in flat if c[0] != "collect"]]])[0].get("ok")
+    excl = model[1].get("ok")
     if out["ok"]["dangling"] and not excl:
-        ctx.fail("A", "ownership:model-dangling", case, f"model reports dangling {out['ok']['dangling']} outside the excluded histories")
-    inv = {}
-    for r, i in role.items():
-        inv.setdefault(i, r)
+        ctx.fail("A", "ownership:model-dangling", case,
+                 f"the model of the code as it is (keep-alive edges read off the source) leaves reachable objects over released buffers: "
+                 f"{[(inv.get(o, o), b) for o, b in out['ok']['dangling']]} after deletion order {delete}")
     pos = 0
     observed = res["trace"] + res["dels"]
     bufs_of, owns_of = {}, {}
@@ -803,7 +1050,9 @@ def check_ownership(ctx, label, program, delete, res, case):
                 owns_of[nw["id"]] = nw["owns"]
                 if nw["kind"] in ("storage", "view"):
                     m_holds |= {(r, inv[x]) for x in nw["refs"]}
-                if nw["kind"] == "ndarray" and nw["refs"] and r.startswith("np:") and inv[nw["refs"][0]].startswith("view:"):
+                elif nw["kind"] == "ndarray" and r.startswith("view:"):   # a re-viewed constituent array: its base is an attribute
+                    m_holds |= {(r, inv[x]) for x in nw["refs"] if inv[x].startswith("storage:")}
+                if nw["kind"] == "ndarray" and nw["refs"] and r.startswith("np:") and inv[nw["refs"][0]].startswith(("view:", "raw:")):
                     m_base.add((r, inv[nw["refs"][0]]))
             m_fin |= {inv[x] for x in stp["finalized"]}
             for x in stp["finalized"]:
@@ -932,7 +1181,7 @@ def run(ctx):
         "combinations the backend's own tests mark as expected failures are excluded by the same conditions (2-d COO operand of "
         "add/asformat, reshape of CSC, complex 1-d COO)",
     ]
-    core.prove(ctx, PID, uses=[])
+    core.prove(ctx, PID, uses=["mlirHoldViews", "C20"])
     rng = gen.rng_for(ctx.seed, PID)
     t0 = time.time()
 
@@ -942,13 +1191,22 @@ def run(ctx):
     det_cases = gen_determine(ctx, rng)
     fmt_specs = gen_format_specs(ctx)
     progs = ownership_programs(ctx, rng)
+    life = lifetime_programs(ctx, rng)
     own_tasks, own_meta = [], {}
-    for label, program, names in progs:
+    for label, program, names in progs + life:
         perms = list(itertools.permutations(names))
         for j, pm in enumerate(perms):
             tid = f"own-{label}-{j}"
             own_tasks.append({"id": tid, "kind": "ownership", "program": program, "delete": list(pm)})
             own_meta[tid] = (label, program, list(pm))
+    ctx.notes["lifetime_programs"] = {"programs": len(life), "runs": sum(1 for m in own_meta.values() if m[0].startswith("life:"))}
+    cfg = ctx.driver.run([["c20_code_cfg"]])[0].get("ok") or {}
+    ctx.notes["keep_alive_edges_read_from_source"] = cfg
+    if cfg and not cfg.get("is_full"):
+        wit = ctx.driver.run([["c20_edge_witness", "code"]])[0].get("ok")
+        ctx.fail("A", "ownership:edges-in-source", {"code": cfg.get("code"), "needed": cfg.get("full")},
+                 f"the keep-alive edges read off the source {cfg.get('code')} are not the ones the ownership theorems need "
+                 f"{cfg.get('full')}; the model's history defeating this configuration: {json.dumps(wit)}")
     tasks = ([{"id": "formats", "kind": "formats", "specs": fmt_specs}, {"id": "determine", "kind": "determine", "cases": det_cases}]
              + rt_tasks + ord_tasks + op_tasks + own_tasks)
     core.log(f"C20: {len(rt_tasks)} round trips, {len(ord_tasks)} order cases, {len(op_tasks)} operations, {len(det_cases)} format groups, "
@@ -962,11 +1220,22 @@ def run(ctx):
     check_roundtrips(ctx, rt_tasks, rt_meta, res)
     check_orders(ctx, ord_tasks, ord_meta, res)
     check_ops(ctx, op_tasks, op_meta, res)
+    reqs, where = [], {}
+    for t in own_tasks:
+        label, program, pm = own_meta[t["id"]]
+        rq = ownership_model_reqs(program, pm, res[t["id"]])
+        if rq:
+            where[t["id"]] = len(reqs)
+            reqs += rq
+    model_outs = ctx.driver.run(reqs)
     for t in own_tasks:
         label, program, pm = own_meta[t["id"]]
         case = {"program": label, "delete_order": pm}
+        if label.startswith("life:"):   # the failing input is self-contained: the object graph (statements) and the deletion order
+            case["statements"] = program
         ctx.case(f"own:{label}", case, nontrivial=True)
-        check_ownership(ctx, label, program, pm, res[t["id"]], case)
+        k = where.get(t["id"])
+        check_ownership(ctx, label, program, pm, res[t["id"]], case, model=None if k is None else model_outs[k:k + 2])
     if not ctx.quick or os.environ.get("C20_VALGRIND"):
         valgrind_leg(ctx, own_tasks, own_meta)
     ctx.cov["rule"] = (
@@ -974,7 +1243,9 @@ def run(ctx):
         "dense level orders: every permutation of rank<=3; operations: every pair of storage families per rank for add and asformat, "
         "family x target shape for reshape, dtypes rotated by VERIF_SEED in quick and exhaustive in thorough, minus the backend tests' "
         "xfail conditions; _determine_format: random groups of 0-3 formats + exhaustive pairs of a sub-pool; ownership: every "
-        "permutation of deleting 4 objects of each program; non-trivial = at least one stored element / one object; distinct by content hash")
+        "permutation of deleting 4 objects of each program; lifetimes: build (NumPy copy=None/False/True, SciPy csr/csc/coo copy=None/True, "
+        "from_constituent_arrays per format, copy(), asarray of an array) x output kind (views / to_numpy / to_scipy) x every order of deleting "
+        "all references to the sources and the arrays (index arrays grouped to <= 4 units in quick), dtypes rotated by VERIF_SEED; non-trivial = at least one stored element / one object; distinct by content hash")
 
 
 def check_formats(ctx, specs, res):
@@ -1301,7 +1572,7 @@ def replay(ctx, path):
     elif isinstance(case, dict) and "program" in case and "delete_order" in case:
         rng = gen.rng_for(ctx2.seed, PID)
         gen_roundtrips(ctx2, rng); gen_orders(ctx2, rng); gen_ops(ctx2, rng); gen_determine(ctx2, rng)   # same rng stream as run()
-        progs = {label: (program, names) for label, program, names in ownership_programs(ctx2, rng)}
+        progs = {label: (program, names) for label, program, names in ownership_programs(ctx2, rng) + lifetime_programs(ctx2, rng)}
         if case["program"] not in progs:
             print("program not in this tier")
             return 1
